@@ -1455,6 +1455,36 @@ func handleYAMLError(err error) []*Error {
 	return []*Error{yamlErr(err.Error())}
 }
 
+// adjustScalarColumns moves the column of scalar nodes which have an anchor or an explicit tag
+// (`&a text`, `!!str text`) to the first character of the text. The YAML library puts the column
+// at the anchor or the tag, but positions in the scalar are calculated from where its text starts.
+func adjustScalarColumns(n *yaml.Node, lines []string) {
+	for _, c := range n.Content {
+		adjustScalarColumns(c, lines)
+	}
+	if n.Kind != yaml.ScalarNode || n.Line <= 0 || n.Line > len(lines) || (n.Anchor == "" && n.Style&yaml.TaggedStyle == 0) {
+		return
+	}
+	l := []rune(lines[n.Line-1]) // Column counts characters
+	i := n.Column - 1
+	for i >= 0 && i < len(l) && (l[i] == '&' || l[i] == '!') {
+		j := i
+		for j < len(l) && l[j] != ' ' && l[j] != '\t' {
+			j++
+		}
+		for j < len(l) && (l[j] == ' ' || l[j] == '\t') {
+			j++
+		}
+		if j >= len(l) {
+			return // The text is not on this line. Keep the column
+		}
+		i = j
+	}
+	if i >= 0 && i < len(l) {
+		n.Column = i + 1
+	}
+}
+
 // Parse parses given source as byte sequence into workflow syntax tree. It returns all errors
 // detected while parsing the input. It means that detecting one error does not stop parsing. Even
 // if one or more errors are detected, parser will try to continue parsing and finding more errors.
@@ -1467,6 +1497,8 @@ func Parse(b []byte) (*Workflow, []*Error) {
 
 	// Uncomment for checking YAML tree
 	// dumpYAML(&n, 0)
+
+	adjustScalarColumns(&n, strings.Split(string(b), "\n"))
 
 	p := &parser{}
 	w := p.parse(&n)
